@@ -61,6 +61,48 @@ def run(ctx):
         else:
             r.ok("file|direct", "line strategies only via search_slice / search_reader", fn=f)
 
+    with ctx.rule("C02.INPUT", "the CLI hands inputs to the searcher through the documented entry points (stdin → reader, files → search_path)",
+                  floor=8, kind="TABLE/ARMS") as r:
+        import itertools
+        from .. import hirx as H
+        SWK = "rg::search::SearchWorker"
+        f = facts.fn(SWK + "::search")
+        tail = H.tail_expr(f.hir)
+        envs = H.LetEnv(f.hir)
+        atoms = ["haystack.is_stdin()", "self.should_preprocess(path)", "self.should_decompress(path)"]
+        got = H.decision_atoms(tail, envs)
+        if set(got) != set(atoms):
+            r.bad("select|atoms", "input routing depends on %s" % got, fn=f)
+        else:
+            for bits in itertools.product([False, True], repeat=3):
+                v = dict(zip(atoms, bits))
+                leaf = H.decide(tail, v, envs)
+                want = "search_reader" if v[atoms[0]] else ("search_preprocessor" if v[atoms[1]] else
+                                                           ("search_decompress" if v[atoms[2]] else "search_path"))
+                key = "select|stdin=%d,pre=%d,zip=%d" % bits
+                if ("self.%s(" % want) in leaf and (want != "search_reader" or "stdin" in leaf):
+                    r.ok(key, "→ %s" % want, fn=f)
+                else:
+                    r.bad(key, "for stdin=%s pre=%s zip=%s the worker runs `%s` (specified %s): standard input must go through the "
+                          "incremental reader — it may be a pipe or a descriptor with a non-zero offset" % (bits + (leaf[:60], want)),
+                          fn=f, construct="select")
+        S_ = "grep_searcher::searcher::Searcher"
+        for free, entry in (("rg::search::search_path", S_ + "::search_path"), ("rg::search::search_reader", S_ + "::search_reader")):
+            g = facts.fn(free)
+            cs = [c for c in g.calls() if c.path.startswith(S_ + "::search_")]
+            wrong = [c for c in cs if c.path != entry]
+            if len(cs) >= 3 and not wrong:
+                r.ok("entry|" + free.split("::")[-1], "%d printer arms all call %s" % (len(cs), entry.split("::")[-1]), fn=g)
+            else:
+                r.bad("entry|" + free.split("::")[-1], "%s reaches the searcher through %s (expected %s in every printer arm)"
+                      % (free, sorted({c.path.split("::")[-1] for c in cs}), entry.split("::")[-1]), fn=g, construct="entry")
+        for m, free in (("search_path", "rg::search::search_path"), ("search_reader", "rg::search::search_reader")):
+            g = facts.fn(SWK + "::" + m)
+            if g.calls_to(free):
+                r.ok("method|" + m, "SearchWorker::%s delegates to %s" % (m, free), fn=g, nontrivial=False)
+            else:
+                r.bad("method|" + m, "SearchWorker::%s no longer delegates to %s" % (m, free), fn=g, construct="entry")
+
     with ctx.rule("C02.ROLL", "Core::roll rebases every cursor; consume uses roll's result", floor=8, kind="RW/ORDER/FLOW") as r:
         f = facts.fn(CORE + "::roll")
         eb = ExprBuilder(f)
